@@ -40,7 +40,9 @@ pub enum CapEntry {
 pub struct Case {
     pub seq: SeqCase,
     pub entry: CapEntry,
-    /// text flavour: 0 ascii, 1 multibyte, 2 bytes ([u8] input)
+    /// text flavour: 0 ascii, 1 multibyte, 2 bytes ([u8] input), 3 tokens of
+    /// a user-side `DiffableStr` type whose equality is not byte equality
+    /// (tagged = finer, case-insensitive = coarser), through `diff_slices`
     pub flavour: u8,
     pub script_seed: u64,
     /// (old_len, new_len, deleted, inserted) of a synthetic valid op list over
@@ -198,7 +200,20 @@ pub fn cap_run(case: &Case, deadline: bool, sched: Sched) -> Result<CapOut, Stri
                         (diff.ops().to_vec(), o, n, diff.ratio())
                     }};
                 }
-                if case.flavour == 2 {
+                if case.flavour == 3 {
+                    use crate::custom_str::{nocase, tagged, NoCase, Tagged};
+                    if seq.hasher.1 & 4 == 0 {
+                        let o: Vec<Tagged> = seq.old_core().iter().map(|x| tagged(*x)).collect();
+                        let n: Vec<Tagged> = seq.new_core().iter().map(|x| tagged(*x)).collect();
+                        let (o, n): (Vec<&Tagged>, Vec<&Tagged>) = (o.iter().collect(), n.iter().collect());
+                        finish!(cfg.diff_slices(&o, &n))
+                    } else {
+                        let o: Vec<NoCase> = seq.old_core().iter().enumerate().map(|(i, x)| nocase(*x, i)).collect();
+                        let n: Vec<NoCase> = seq.new_core().iter().enumerate().map(|(i, x)| nocase(*x, i + 1)).collect();
+                        let (o, n): (Vec<&NoCase>, Vec<&NoCase>) = (o.iter().collect(), n.iter().collect());
+                        finish!(cfg.diff_slices(&o, &n))
+                    }
+                } else if case.flavour == 2 {
                     let (ob, nb) = (ot.as_bytes(), nt.as_bytes());
                     match case.entry {
                         CapEntry::TextLines => finish!(cfg.diff_lines(ob, nb)),
@@ -638,7 +653,7 @@ impl Prop for CapProp {
         Case {
             seq,
             entry,
-            flavour: rng.below(3) as u8,
+            flavour: rng.below(4) as u8,
             script_seed: rng.next(),
             ratio_probe: {
                 // lengths up to 2^40, few or no edits
